@@ -774,10 +774,12 @@ class SplineParser(object):
             symbolic_duration["normal_notes"] = int(diff[min(list(diff.keys()))]) // 4
         if dots:
             symbolic_duration["dots"] = dots
+        if isinstance(dur, str):
+            # "0", "00" and "000" are the breve, long and maxima, i.e. the
+            # reciprocal values 1/2, 1/4 and 1/8 (not zero)
+            dur = 2.0 ** -len(dur) if set(dur) == {"0"} else float(dur)
         self.note_duration_values[self.total_parsed_elements] = (
-            dot_function((float(dur) if isinstance(dur, str) else dur), dots)
-            if not is_grace
-            else inf
+            dot_function(dur, dots) if not is_grace else inf
         )
         return symbolic_duration
 
